@@ -22,7 +22,9 @@ EXPLANATION = (
     "C03.b (ponding without bunds, inductive): every store to the ponding depth - initial conditions, season reset, "
     "infiltration, evaporation, transpiration - is the literal 0, or control dependent on a test of the bund switch, "
     "or a decrease s - x control dependent on s > 0; hence without bunds the ponding stays 0. C03.c: a water-content cell "
-    "that is set to a hydraulic bound (saturation, adjusted field capacity) takes the bound of the same compartment. NOT decided: "
+    "that is set to a hydraulic bound (saturation, adjusted field capacity) takes the bound of the same compartment. C03.d: threshold locals feeding a store into compartment j are computed from compartment j's own hydraulic properties "
+    "(layer-change idiom for the net-irrigation refill). C03.e: no per-compartment array is subscripted with a layer number. C03.f: the field management "
+    "in force follows the growing-season flag (in-season object when True, fallow object when False; constant propagation with distinct abstract objects). NOT decided: "
     "th >= th_dry and th <= th_s as numeric invariants, ponding <= bund height, Wr >= 0.")
 
 BOUND_ATTRS = {"th_s", "th_fc_Adj", "th_fc"}
@@ -564,9 +566,45 @@ def rule_d(chk, prog, rule="C03.d", only=None, floor=15):
     chk.floor("C03.e", len([i for i in chk.instances if i["rule"] == "C03.e"]), 4, "layer-number locals / sites examined")
 
 
+def rule_f(chk, prog):
+    """C03.f: 'ponding is zero whenever no bunds are configured' speaks of the field management in force on the day. The step selects
+    it from the growing-season flag: in season the configured in-season management, otherwise the fallow one. Interprocedural constant
+    propagation with the two objects as distinct abstract objects: at the row writer the management local is the in-season object in
+    every partition with growing_season True and the fallow object in every partition with growing_season False."""
+    from ..cp import batch
+    from ..absint import Obj
+    step = prog.func(STEP_FN)
+    inf = prog.find_func("infiltration")
+    call = [c for c, t in prog.calls_in(step) if getattr(t, "key", None) == inf.key]
+    names = {a.value.id for c in call for a in c.args if isinstance(a, ast.Attribute) and a.attr in ("bunds", "z_bund") and isinstance(a.value, ast.Name)}
+    if len(names) != 1:
+        raise AnalysisError("cannot identify the step's field-management local (base of the bund arguments of infiltration)")
+    fm = names.pop()
+    r = batch(prog, [{"FieldMngt.bunds": False}], want_locals=[fm])[0]
+    want = {True: ("cfg", "FieldMngt"), False: ("cfg", "FallowFieldMngt")}
+    n = 0
+    for gs in (True, False):
+        parts = r.locals[gs]
+        if not parts:
+            chk.error(f"C03.f: no partition with growing_season={gs}")
+        for l in parts:
+            n += 1
+            v = l[fm]
+            construct = f"field management in force | growing_season={gs}"
+            if isinstance(v, Obj) and v.oid == want[gs]:
+                chk.ok("C03.f", STEP_FN, construct, f"{'in-season' if gs else 'fallow'} management object")
+            else:
+                chk.violation("C03.f", STEP_FN, construct,
+                              f"on a day with growing_season={gs} the management in force is {v}, not the {'in-season' if gs else 'fallow'} field management: "
+                              "bunds (mulches, curve-number adjustment) of the other period stay in force, e.g. water is held behind in-season bunds after "
+                              "the crop has matured although the fallow management has none", loc=step.loc())
+    chk.floor("C03.f", n, 2, "partitions of the row writer examined")
+
+
 def run(chk, prog, tier):
     rule_a(chk, prog)
     rule_b(chk, prog)
     rule_c(chk, prog)
     rule_d(chk, prog)
+    rule_f(chk, prog)
     chk.assume("A-1")
